@@ -480,3 +480,125 @@ func runServeD1(r *Run, g *serveGen, owner string, timeout time.Duration) {
 	}
 	_ = http.MethodGet
 }
+
+// ---- D2 for C08: redirects for plain and percent-encoded paths, validated by Obs_Redirect -------------------
+
+func decodedSegments(escaped string) ([]string, bool) {
+	parts := strings.Split(escaped, "/")
+	out := make([]string, len(parts))
+	for i, p := range parts {
+		u, err := url.PathUnescape(p)
+		if err != nil {
+			return nil, false
+		}
+		out[i] = u
+	}
+	return out, true
+}
+
+func runRedirectD2(r *Run, rng *rand.Rand) {
+	rt, err := fox.New(fox.WithRedirectTrailingSlash(true), fox.WithMiddlewareFor(fox.RedirectHandler, redirectProbe))
+	if err != nil {
+		failTool("fox.New: %v", err)
+	}
+	for _, m := range []string{"GET", "POST", "CONNECT"} {
+		for _, p := range []string{"/{x}/", "/d/{x}", "/e/{x}/{y}/", "/s/*{w}/end", "/t/{x}/end/"} {
+			rt.MustHandle(m, p, routeHandler(m+" "+p))
+		}
+	}
+	segs := []string{"a", "a:b", "https:evil.com", "a?b", "a#b", "a%b", "a b", "é", "a/b", "日本", "a;b", "a=b&c", "..", "a%2fb", "@", "//x", "a\\b", "%", "?", "#"}
+	var obs []map[string]any
+	var desc []string
+	n := pick(r, 1500, 20000)
+	for k := 0; k < n; k++ {
+		seg := func() string { return segs[rng.Intn(len(segs))] }
+		var rawSegs []string
+		switch rng.Intn(5) {
+		case 0:
+			rawSegs = []string{"", seg()}
+		case 1:
+			rawSegs = []string{"", "d", seg(), ""}
+		case 2:
+			rawSegs = []string{"", "e", seg(), seg()}
+		case 3:
+			rawSegs = []string{"", "s", seg(), seg(), "end", ""}
+		default:
+			rawSegs = []string{"", "t", seg(), "end"}
+		}
+		// build decoded and escaped forms; sometimes send only the decoded path (as net/http does when the
+		// default encoding round-trips)
+		esc := make([]string, len(rawSegs))
+		for i, s := range rawSegs {
+			esc[i] = url.PathEscape(s)
+		}
+		escaped := strings.Join(esc, "/")
+		u, perr := url.ParseRequestURI(escaped)
+		if perr != nil {
+			continue
+		}
+		method := []string{"GET", "POST", "GET", "CONNECT"}[rng.Intn(4)]
+		query := []string{"", "q=1", "a=b&c=%2F", "x=%3F"}[rng.Intn(4)]
+		req, cp := newRequest(method, "h.example", u.Path, query)
+		req.URL.RawPath = u.RawPath
+		routed := u.Path
+		if u.RawPath != "" {
+			routed = u.RawPath
+		}
+		w := newPlainWriter()
+		rt.ServeHTTP(w, req)
+		if cp.handler != "redirect" {
+			continue // only redirects are validated here; who gets one is decided by the D1 vectors
+		}
+		base := &url.URL{Scheme: "http", Host: "h.example", Path: u.Path, RawPath: u.RawPath, RawQuery: query}
+		loc := w.h.Get("Location")
+		var resolvedSegs []string
+		resolvedQuery := "<unparsable>"
+		if lu, e := url.Parse(loc); e == nil {
+			res := base.ResolveReference(lu)
+			if res.Host == "h.example" && res.Scheme == "http" {
+				if sg, ok := decodedSegments(res.EscapedPath()); ok {
+					resolvedSegs = sg
+				}
+				resolvedQuery = res.RawQuery
+			} else {
+				resolvedSegs = []string{"<absolute: " + res.String() + ">"}
+			}
+		} else {
+			resolvedSegs = []string{"<unparsable Location>"}
+		}
+		// the routed path as fox sees it: RawPath when set (escaped), the decoded path otherwise
+		var routedSegs []string
+		if u.RawPath != "" {
+			routedSegs, _ = decodedSegments(routed)
+		} else {
+			routedSegs = strings.Split(routed, "/")
+		}
+		if resolvedSegs == nil {
+			resolvedSegs = []string{"<undecodable>"}
+		}
+		obs = append(obs, map[string]any{"method": method, "routed": routedSegs, "resolved": resolvedSegs, "query": query, "resolvedquery": resolvedQuery,
+			"code": w.status, "clean": fox.CleanPath(routed) == routed})
+		desc = append(desc, fmt.Sprintf("%s %s?%s -> Location %q", method, routed, query, loc))
+	}
+	if len(obs) == 0 {
+		failTool("redirect driver produced no redirect")
+	}
+	rej := r.runObs("Obs_Redirect", obs, pick(r, 5*time.Minute, 30*time.Minute))
+	ids := make([]int, 0, len(rej))
+	for i := range rej {
+		ids = append(ids, i)
+	}
+	sort.Ints(ids)
+	seen := map[string]bool{}
+	for _, i := range ids {
+		o := obs[i-1]
+		key := fmt.Sprintf("redirect routed=%q", strings.Join(o["routed"].([]string), "/"))
+		if seen[key] {
+			continue
+		}
+		seen[key] = true
+		r.violation(key, map[string]any{"kind": "trace", "request": desc[i-1], "prescribed": map[string]any{"resolved_segments": json.RawMessage(rej[i]), "query": o["query"]}, "obtained": o})
+	}
+	r.addCov("redirects_recorded_and_validated", int64(len(obs)))
+	r.addCov("traces_validated_against_impl", int64(len(obs)))
+}
